@@ -221,4 +221,17 @@ Section SrcProofs.
     - unfold scipy_call, seeded. simpl. reflexivity.
     - apply forallb_app_true; auto. apply forallb_app_true; auto.
   Qed.
+
+  (* ------------------------------------------------------------------ footprints *)
+  Lemma within_readonly (I : inst) foot script :
+    forallb readonly_atom foot = true -> within V I foot script = true ->
+    forallb (writes_in V (fun _ => false)) script = true.
+  Proof.
+    intros Hf Hw. unfold within in Hw. rewrite forallb_forall in *. intros e He. specialize (Hw e He).
+    apply orb_true_iff in Hw as [Hu|Hc].
+    - destruct e as [r n|r n f|r n f|r|r|g b|g s|r]; simpl in *; auto; destruct r; auto; discriminate.
+    - apply existsb_exists in Hc as (a & Ha & Hc). specialize (Hf a Ha).
+      destruct a; simpl in Hf; try discriminate; destruct e; simpl in *; auto;
+        try (destruct o; discriminate); try discriminate.
+  Qed.
 End SrcProofs.
